@@ -122,14 +122,27 @@ func (dss *dataStoreSet) flushDb(index int) {
 	dss.mu.Lock()
 	defer dss.mu.Unlock()
 
-	delete(dss.dbs, index)
+	if _, exists := dss.dbs[index]; exists {
+		// replaced by an empty database that is marked as changed, so that the next save
+		// overwrites what is on disk (a deleted entry would leave the old file behind)
+		ds := newDataStore()
+		ds.data.dirty = true
+		dss.dbs[index] = ds
+	}
 }
 
 func (dss *dataStoreSet) flushAll() {
 	dss.mu.Lock()
 	defer dss.mu.Unlock()
 
-	dss.dbs = map[int]*dataStore{}
+	dbs := map[int]*dataStore{}
+	for index := range dss.dbs {
+		// (empty and marked as changed: see flushDb)
+		ds := newDataStore()
+		ds.data.dirty = true
+		dbs[index] = ds
+	}
+	dss.dbs = dbs
 }
 
 func (dss *dataStoreSet) getUser(userName string) (dsu *dataStoreUser, exists bool) {
